@@ -760,4 +760,6 @@ MB("m157", "C16", ["R16.6"], "r5set5_2", HENDRIX, "        return prob_db * (jnp
    "        return prob_db * (jnp.arange(self.max_stock_b + 1) <= stock_b)\n", "shared masked pmf includes the sell-out level (moved distribution call)")
 MB("m153", "C18", ["R18.1"], "r5set4_3", BATCH, "        self.n_pad = total_size - n_states\n", "        self.n_pad = total_size - n_states - 1\n",
    "padding count one short in the dataclass __post_init__ (constructor written out)")
+MB("m158", "C09", ["R9.1"], "r5set3_1", SOLVER, "        padding_mask = self._padding_masks.get(batch_shape)\n",
+   "        padding_mask = self._padding_masks.get(batch_shape[0])\n", "mask cache looked up by the device count only (the table is then state, not a memo)")
 
